@@ -41,6 +41,7 @@ def mutants(rng, raw, quick):
     return out
 
 def run(ctx):
+    ctx.explanation = ("partial: theorems cover the arithmetic/indexing facts of the operational model (offset <= range, value <= upper < 2^W, k <= W, metadata bounds, reps <= batch, saturating skip, reader stays inside the data, complete trees never fail but for lack of data) in every reachable state on arbitrary bytes; NOT covered by theorems: BitReader/BitWords word-level shifts and indexing, the fast path's guaranteed_safe_num_blocks bound, allocation failure (2^max_depth validation table) - these are exercised by the mutation fuzz only")
     rng = ctx.rng
     ctx.rule = ("mutation fuzz on the implementation (overflow checks + debug assertions on, catch_unwind per call, wall-clock and "
                 "memory caps per batch, dead batches bisected to the single input): bit flips (all of the first bytes, sampled "
